@@ -1,4 +1,4 @@
-(* CompileStatic3.v — C01: the COMPILE-TIME theorem for the fragment with closures as values
+(* CompileStatic4.v — C01: the COMPILE-TIME theorem for the fragment with closures as values
    (Proofs/Closures3.v): on a well-formed expression, under a header that binds the names sc,
    compile_expression succeeds, appends code to the lambda under construction, keeps its header,
    extends the compile-time state and leaves the registers and the table of lexical environments
@@ -281,8 +281,6 @@ Proof.
 Qed.
 
 (* ============================================================ operands, application *)
-Definition cells_of4 (args : list expr4) : cell := fold_right CPair CNil (map cell_of4 args).
-
 Lemma cells4_size x r : (cell_size (cell_of4 x) < cell_size (cells_of4 (x :: r)))%nat /\
                         (cell_size (cells_of4 r) < cell_size (cells_of4 (x :: r)))%nat.
 Proof. unfold cells_of4. cbn [map fold_right cell_size]. lia. Qed.
@@ -364,38 +362,87 @@ Lemma caps_names s sc caps cs :
   Forall2 (pname s) (map fst caps) cs.
 Proof. intros H. induction H as [|e x caps cs [H1 _] _ IH]; cbn [map]; constructor; assumption. Qed.
 
-(* a body that is not a definition has no internal definitions *)
-Lemma ids_body4 body sc : wf4 body sc -> is_define4 body = false ->
-  internally_defined_symbols (CPair (cell_of4 body) CNil) = Ok [].
+(* body expressions none of which is a definition: no internal definitions *)
+Definition not_define_cell (c : cell) : Prop :=
+  match c with CPair a _ => sym_eq a "define" = false | _ => True end.
+
+Lemma nondef_cell4 body sc : wf4 body sc -> is_define4 body = false -> not_define_cell (cell_of4 body).
 Proof.
-  intros Hwf Hd. unfold internally_defined_symbols. cbn [cell_iter].
-  destruct body; try discriminate; cbn [cell_of4 ids_loop]; try reflexivity.
-  - destruct Hwf as [Hs _]. destruct c; try discriminate; reflexivity.
+  intros Hwf Hd. unfold not_define_cell.
+  destruct body; try discriminate; cbn [cell_of4]; try reflexivity.
+  - destruct Hwf as [Hs _]. destruct c; try discriminate; exact I.
   - apply wf4_app in Hwf as (Hsp & _). unfold special_head in Hsp.
     apply Bool.orb_false_iff in Hsp as [Hsp _]. apply Bool.orb_false_iff in Hsp as [Hsp _].
     apply Bool.orb_false_iff in Hsp as [Hsp _]. apply Bool.orb_false_iff in Hsp as [Hsp _].
     apply Bool.orb_false_iff in Hsp as [Hsp _]. apply Bool.orb_false_iff in Hsp as [Hsp _].
-    apply Bool.orb_false_iff in Hsp as [Hsp _]. rewrite Hsp. reflexivity.
+    apply Bool.orb_false_iff in Hsp as [Hsp _]. exact Hsp.
 Qed.
 
-Lemma lam_static4 sc ps fs body : wf4 (ZLam ps fs body) sc -> compile_static4 (ps ++ capnames sc fs) body ->
-  forall f l tail s, (cell_size (lam_cell ps (cell_of4 body)) < f)%nat -> hdr4 l sc s -> minv s ->
+Lemma ids_loop_nondef l : Forall not_define_cell l -> forall b acc, ids_loop l b acc = Ok acc.
+Proof.
+  induction 1 as [|e r He _ IH]; intros b acc; [reflexivity|]. cbn [ids_loop].
+  destruct e; try apply IH. unfold not_define_cell in He. rewrite He. apply IH.
+Qed.
+
+Lemma cell_iter_list l : cell_iter (fold_right CPair CNil l) = l.
+Proof. induction l as [|x r IH]; [reflexivity|]. cbn [fold_right cell_iter]. rewrite IH. reflexivity. Qed.
+
+Lemma ids_bodies4 bodies sc : Forall (fun b => wf4 b sc) bodies -> (forall b, In b bodies -> is_define4 b = false) ->
+  internally_defined_symbols (fold_right CPair CNil (map cell_of4 bodies)) = Ok [].
+Proof.
+  intros Hwf Hd. unfold internally_defined_symbols. rewrite cell_iter_list. apply ids_loop_nondef.
+  rewrite Forall_forall in *. intros c Hc. apply in_map_iff in Hc as (b & <- & Hb).
+  eapply nondef_cell4; [apply Hwf; exact Hb|apply Hd; exact Hb].
+Qed.
+
+Lemma bodies_not_nil (bodies : list expr4) : bodies <> [] ->
+  is_nil (fold_right CPair CNil (map cell_of4 bodies)) = false.
+Proof. destruct bodies; [congruence|reflexivity]. Qed.
+
+Lemma lam_cells_size ps bs : (cell_size (fold_right CPair CNil bs) + 1 < cell_size (lam_cells ps bs))%nat.
+Proof. unfold lam_cells. cbn [cell_size]. lia. Qed.
+
+(* the body loop: every expression in turn, the last one in tail position *)
+Lemma bodies_static4 sc bodies : Forall (compile_static4 sc) bodies ->
+  forall f l s, (cell_size (cells_of4 bodies) < f)%nat -> hdr4 l sc s -> minv s ->
+  exists l' s' code, compile_bodies f l (map cell_of4 bodies) s = ROk l' s' /\
+    fwd l' = fwd l ++ code /\ same_hdr l l' /\ minv s' /\ cext s s' /\ same_regs s s' /\
+    envs (st s') = envs (st s).
+Proof.
+  induction 1 as [|x r Hx Hr IH]; intros f l s Hf Hh MI.
+  - exists l, s, []. cbn [map compile_bodies]. split; [reflexivity|].
+    split; [rewrite app_nil_r; reflexivity|]. split; [apply same_hdr_refl|]. split; [exact MI|].
+    split; [apply cext_refl|]. split; [apply same_regs_refl|reflexivity].
+  - destruct (cells4_size x r) as [Sx Sr]. cbn [map compile_bodies].
+    destruct (Hx f l (match map cell_of4 r with [] => true | _ => false end) s ltac:(lia) Hh MI)
+      as (l1 & s1 & cx & E1 & F1 & S1 & MI1 & X1 & R1 & En1).
+    destruct (IH f l1 s1 ltac:(lia) (hdr4_same _ _ _ _ S1 (hdr4_ext _ _ _ _ X1 Hh)) MI1)
+      as (l2 & s2 & cr & E2 & F2 & S2 & MI2 & X2 & R2 & En2).
+    exists l2, s2, (cx ++ cr). unfold bindM at 1. rewrite E1, E2.
+    split; [reflexivity|]. split; [rewrite F2, F1, <- app_assoc; reflexivity|].
+    split; [eapply same_hdr_trans; eassumption|]. split; [exact MI2|]. split; [eapply cext_trans; eassumption|].
+    split; [eapply same_regs_trans; eassumption|]. rewrite En2. exact En1.
+Qed.
+
+Lemma lam_static4 sc ps fs bodies : wf4 (ZLam ps fs bodies) sc ->
+  Forall (compile_static4 (ps ++ capnames sc fs)) bodies ->
+  forall f l tail s, (cell_size (lam_cells ps (map cell_of4 bodies)) < f)%nat -> hdr4 l sc s -> minv s ->
   exists l' s' lamp lamF caps cb f' lam2 s3 lam3 s4,
-    compile_expression f l tail (lam_cell ps (cell_of4 body)) s = ROk l' s' /\
+    compile_expression f l tail (lam_cells ps (map cell_of4 bodies)) s = ROk l' s' /\
     fwd l' = fwd l ++ [VOp OMovImmediate; VPtr lamp; VAcc; VOp OClosureAcc] /\
     same_hdr l l' /\ minv s' /\ cext s s' /\ same_regs s s' /\ envs (st s') = envs (st s) /\
     lam_in s' lamp lamF /\ l_envmap lamF = ScopeProofs.enum_args (l_args lamF) 0 ++ caps /\
     Forall2 (pname s') (l_args lamF) ps /\
     Forall2 (fun e x => pname s' (fst e) x /\ exists k, snd e = BIofEnvironment k /\ pindex x sc = Some k) caps (capnames sc fs) /\
     l_bc lamF = [VOp OEnter] ++ cb ++ [VOp ORet] /\
-    (cell_size (cell_of4 body) < f')%nat /\ hdr4 lam2 (ps ++ capnames sc fs) s3 /\ minv s3 /\
-    compile_expression f' lam2 true (cell_of4 body) s3 = ROk lam3 s4 /\
+    (cell_size (cells_of4 bodies) < f')%nat /\ hdr4 lam2 (ps ++ capnames sc fs) s3 /\ minv s3 /\
+    compile_bodies f' lam2 (map cell_of4 bodies) s3 = ROk lam3 s4 /\
     fwd lam2 = [VOp OEnter] /\ fwd lam3 = fwd lam2 ++ cb /\ cext s4 s'.
 Proof.
   intros Hwf IHb f l tail s Hf Hh MI. destruct f as [|f]; [lia|].
-  cbn [wf4] in Hwf. destruct Hwf as (Hprim & Hnd & Hfs & _ & Hwb).
-  pose proof (lam_cell_size ps (cell_of4 body)) as Hlsz.
-  rewrite compile_lambda_eq.
+  apply wf4_lam in Hwf. destruct Hwf as (Hne & Hprim & Hnd & Hfs & _ & Hwb).
+  pose proof (lam_cells_size ps (map cell_of4 bodies)) as Hlsz. fold (cells_of4 bodies) in Hlsz.
+  rewrite compile_lambda4_eq.
   (* formals *)
   destruct (formals_ok4 ps s Hprim MI) as (aps & s2 & E2 & MI2 & X2 & R2 & Fa & En2).
   unfold bindM at 1. rewrite E2. cbv beta iota.
@@ -403,8 +450,9 @@ Proof.
   unfold bindM at 1. unfold lift at 1. rewrite Hfs.
   destruct (put_cells_ok4 fs s2 MI2) as (frefs & s3 & E3 & MI3 & X3 & R3 & Ff & En3).
   unfold bindM at 1. rewrite E3.
-  unfold bindM at 1. unfold lift at 1. rewrite (ids_body4 body _ Hwb Hnd).
+  unfold bindM at 1. unfold lift at 1. rewrite (ids_bodies4 bodies _ Hwb Hnd).
   unfold bindM at 1. cbn [put_cells]. unfold ret at 1. cbv beta iota zeta.
+  rewrite (bodies_not_nil bodies Hne).
   set (lam2 := emit_op (set_desc (lambda_from_iof aps [] l frefs false) (syms_of ps)) OEnter).
   assert (X03 : cext s s3) by (eapply cext_trans; eassumption).
   pose proof (free_part_spec l sc s3 frefs fs (hdr4_ext _ _ _ _ X03 Hh) (mi_heap _ MI3) Ff) as Hcaps.
@@ -413,9 +461,9 @@ Proof.
   assert (Hhb : hdr4 lam2 (ps ++ capnames sc fs) s3).
   { exists ps, (capnames sc fs), (ScopeProofs.free_part l frefs). split; [reflexivity|]. split; [exact Hem|].
     split; [eapply pnames_ext; [exact X3|exact Fa]|eapply caps_names; exact Hcaps]. }
-  (* body *)
-  destruct (IHb f lam2 true s3 ltac:(lia) Hhb MI3) as (lam3 & s4 & cb & E4 & F4 & S4 & MI4 & X4 & R4 & En4).
-  unfold bindM at 1. unfold bindM at 1. rewrite E4. unfold ret at 1.
+  (* bodies *)
+  destruct (bodies_static4 _ bodies IHb f lam2 s3 ltac:(lia) Hhb MI3) as (lam3 & s4 & cb & E4 & F4 & S4 & MI4 & X4 & R4 & En4).
+  unfold bindM at 1. rewrite compile_bodies_eq, E4.
   destruct (put_lambda_spec (emit_op lam3 ORet) s4 MI4) as (lamp & s5 & E5 & MI5 & X5 & R5 & Gb5 & _ & A5 & C5 & L5 & T5).
   unfold bindM at 1. rewrite E5. unfold ret at 1.
   set (lamF := lambda_finish (emit_op lam3 ORet)) in *.
@@ -442,11 +490,11 @@ Proof.
   split; [reflexivity|]. split; [exact F4|exact X5].
 Qed.
 
-Lemma cs4_lam sc ps fs body : wf4 (ZLam ps fs body) sc -> compile_static4 (ps ++ capnames sc fs) body ->
-  compile_static4 sc (ZLam ps fs body).
+Lemma cs4_lam sc ps fs bodies : wf4 (ZLam ps fs bodies) sc ->
+  Forall (compile_static4 (ps ++ capnames sc fs)) bodies -> compile_static4 sc (ZLam ps fs bodies).
 Proof.
   intros Hwf IHb f l tail s Hf Hh MI. cbn [cell_of4] in *.
-  destruct (lam_static4 sc ps fs body Hwf IHb f l tail s Hf Hh MI)
+  destruct (lam_static4 sc ps fs bodies Hwf IHb f l tail s Hf Hh MI)
     as (l' & s' & lamp & lamF & caps & cb & f' & lam2 & s3 & lam3 & s4 & E & F & S & MI' & X & R & En & _).
   exists l', s', [VOp OMovImmediate; VPtr lamp; VAcc; VOp OClosureAcc]. auto 10.
 Qed.
@@ -454,7 +502,7 @@ Qed.
 (* ============================================================ the compile-time theorem *)
 Theorem static4 : forall e sc, wf4 e sc -> compile_static4 sc e.
 Proof.
-  induction e as [c|d|c IHc a IHa b IHb|c IHc a IHa|x|x e IHe|x e IHe|f args IHf IHargs|ps fs body IHb]
+  induction e as [c|d|c IHc a IHa b IHb|c IHc a IHa|x|x e IHe|x e IHe|f args IHf IHargs|ps fs bodies IHb]
     using expr4_ind2; intros sc Hwf.
   - apply cs4_const. exact Hwf.
   - apply cs4_quote. exact Hwf.
@@ -466,5 +514,6 @@ Proof.
   - pose proof Hwf as Hwf'. apply wf4_app in Hwf' as (_ & Hf & Hargs).
     apply cs4_app; [exact Hwf|apply IHf; exact Hf|].
     rewrite Forall_forall in *. intros x Hx. apply IHargs; [exact Hx|]. apply Hargs. exact Hx.
-  - apply cs4_lam; [exact Hwf|]. apply IHb. apply Hwf.
+  - apply cs4_lam; [exact Hwf|]. apply wf4_lam in Hwf. destruct Hwf as (_ & _ & _ & _ & _ & Hwb).
+    rewrite Forall_forall in *. intros x Hx. apply IHb; [exact Hx|]. apply Hwb. exact Hx.
 Qed.
